@@ -2,7 +2,7 @@
 Spec: cache layer of specs/Failsafe.tla + C11_* invariants; histories of executions with configured / context keys."""
 import vlib, seq
 
-CACHES = ["cK", "cIf", "cIfE", "cNoKey"]
+CACHES = ["cK", "cIf", "cIfE", "cIf2", "cNoKey"]
 INNER = ["rp1", "cbA", "bh1", "rl2", "fbR", "rpH"]
 
 
@@ -41,6 +41,10 @@ def run(ctx):
                         fns = [[fn(3 if j == 0 else 2, "R1" if p == "S" else "R0", None if p == "S" else "E1", coop)] * 3 for j, p in enumerate(pat)]
                         base = [start(j + 1, at, asyn=(j == 1), ck=cks[j]) for j, at in enumerate(starts)]
                         scs.append(scenario(st, fns, base))
+                        if pat == "SSS" and coop:
+                            pre = [dict(e, id="precanceled") if e["x"] == 3 else e for e in base]
+                            scs.append(scenario(st, fns, pre))
+                            scs.append(scenario(st, fns, [dict(e, dl=e["at"]) if e["x"] == 3 else e for e in base]))
                         if pat == "SSS":
                             for ct in ((1, 2) if quick else (0, 1, 2, 3)):
                                 scs.append(scenario(st, fns, base + [env("CtxCancel", ct, 1)]))
